@@ -11,6 +11,11 @@ def dyadic_setting(rng, tier):
     ts = rng.choice(TS_CHOICES)
     T = 2.0 ** rng.choice([-8, -4, -2, 0, 0, 3, 6, 12])
     grid = rng.choice([4, 8, 8, 16, 16, 32, 64] + ([128, 256] if tier == "thorough" else []))
+    if rng.random() < 0.06:
+        # a recording far from the origin (epoch-style time stamps): still exactly representable on the grid
+        ts = rng.choice([2.0 ** 40, -2.0 ** 40, 2.0 ** 30])
+        T = 2.0 ** rng.choice([0, 3, 6, 12])
+        grid = rng.choice([4, 8, 16, 32, 64])
     return ts, ts + T, grid
 
 
@@ -280,6 +285,9 @@ def func_setting(rng):
     ts = rng.choice([0.0, -4.0, 16.0, 0.5])
     T = rng.choice([1.0, 8.0, 64.0, 0.25])
     grid = rng.choice([4, 8, 16, 32])
+    if rng.random() < 0.06:
+        ts = rng.choice([2.0 ** 40, -2.0 ** 40, 2.0 ** 30])      # far from the origin, still exact on the grid
+        T = rng.choice([1.0, 8.0, 64.0])
     return ts, ts + T, grid
 
 
